@@ -16,41 +16,56 @@ SOURCES = ["src/allmydata/storage/expirer.py", "src/allmydata/storage/lease.py",
            "src/allmydata/storage/immutable.py", "src/allmydata/storage/mutable.py",
            "src/allmydata/storage/crawler.py"]
 DESIGN_REF = "DESIGN.md §2 C26"
-TECHNIQUE = ("Lean 4 theorems over an executable model of LeaseCheckingCrawler.process_share/process_bucket and "
-             "cancel_lease; differential correspondence against the real LeaseCheckingCrawler of a real StorageServer "
-             "on real share files with a patched clock - about 60% of the servers are built through the production "
-             "configuration path (tahoe.cfg with every expire.* combination -> client.read_config -> "
-             "_Client.get_anonymous_storage_server) and the configuration reaching the crawler is compared with the "
-             "documented meaning of the settings; production-path servers in cutoff-date mode are built and run under several "
-             "process time zones (TZ unset/UTC/PST8PDT/America/Los_Angeles/JST-9/Asia/Tokyo/XYZ-5:30/Pacific/Kiritimati) "
-             "with leases renewed within -5h..+13h of the cutoff, which must be midnight UTC of the configured date; monitor = the documented expiry predicate incl. the share-type filter")
-LEVEL_TEXT = ("disabled_never_deletes / disabled_bucket_untouched / not_enabled_in_tahoe_cfg_never_deletes and the full theorem "
-              "deleted_iff_all_expired (removed iff type enabled and every lease expired under the documented predicate; exactly the "
-              "expired leases are cancelled; bucket level: bucket_pass_deletes_exactly_expired) are proved for all configurations, "
-              "clocks and lease lists under the explicit hypothesis WellFormedLeases (>= 1 lease, pairwise distinct cancel secrets); "
-              "what the code does outside it is pinned by three proved counterexamples, which are the open known findings. The "
-              "tahoe.cfg -> crawler configuration step (defaults, required keys, share-type switches) is modelled and proved "
-              "(sharetype_switches_select_types, cutoff_and_override_reach_the_crawler). The model is tied to expirer.py / client.py "
-              "by running the real crawler on real immutable and mutable share files, built through the production configuration path.")
-LEVEL_NOTE = ("Schedule level: expired_share_deleted_within_one_cycle / valid_share_survives_every_schedule / "
-              "disabled_never_deletes_any_schedule are proved on the composed machine GcCycle.gcRun (crawler schedule with slices, "
-              "kills, restarts driving the expirer on the share files), tied by the gcrun driver command against a real "
-              "LeaseCheckingCrawler run slice by slice. " +
-              "Hypothesis 'leases non-empty and cancel secrets distinct within a share' excludes exactly the three open findings. "
-              "'Deleted within one crawl cycle' is the composition of bucket_pass_deletes_exactly_expired with C27 "
-              "(covers_at_least_once), now proved as one theorem on GcCycle.gcRun.")
-RULE = ("a case is one share file (type, 0..5 leases with renewal times placed at/around the configured threshold) processed by "
-        "the real LeaseCheckingCrawler under one policy configuration and a patched clock; distinct = distinct "
-        "(config, now - renewal offsets, cancel-secret pattern, share type); non-trivial = the share has at least one lease")
-TRUSTED = ["lean/Tahoe/Storage/Expire.lean is a hand transcription of process_share/process_bucket/cancel_lease "
-           "(age-mode limit as repaired by fixes/C26-age-mode.diff); os.stat-based byte counters and the lease-age histogram are not modelled",
-           "the harness patches the module attribute `time` of expirer/lease/crawler with an integral fake clock",
+TECHNIQUE = ("Lean 4 theorems over executable models of LeaseCheckingCrawler.process_share / process_bucket, cancel_lease, the "
+             "tahoe.cfg -> crawler configuration step, the lease-age histogram in the state file, and of the crawler driving the "
+             "expirer over whole schedules (GcCycle.gcRun); differential correspondence against the real LeaseCheckingCrawler of a "
+             "real StorageServer on real immutable and mutable share files with a patched clock: (A) process_bucket called "
+             "directly, (B) whole cycles through start_slice incl. populated prefix directories listed in scripted order, (C) "
+             "multi-slice schedules with time-slice interruptions, kills and restarts of a real LeaseCheckingCrawler (gcrun), "
+             "(D) every expire.* settings combination through the production path (tahoe.cfg -> client.read_config -> "
+             "_Client.get_anonymous_storage_server; cfg), cutoff-date servers also under eight process time zones, (E) the "
+             "histogram across a mid-cycle state-file round trip (hist); monitor = the documented expiry predicate incl. the "
+             "share-type filter, per pass, per cycle and per schedule")
+LEVEL_TEXT = ("Proved for all configurations, clocks, lease lists and crawler schedules: disabled_never_deletes / "
+              "disabled_bucket_untouched / disabled_never_deletes_any_schedule / not_enabled_in_tahoe_cfg_never_deletes; the full "
+              "theorem deleted_iff_all_expired (removed iff type enabled and every lease expired under the documented predicate; "
+              "exactly the expired leases are cancelled) and bucket_pass_deletes_exactly_expired under the explicit hypothesis "
+              "WellFormedLeases (>= 1 lease, pairwise distinct cancel secrets); expired_share_deleted_within_one_cycle and "
+              "valid_share_survives_every_schedule on the composed machine (any slicing, kills after any process_bucket call, "
+              "restarts, changing listings, a clock per slice); sharetype_switches_select_types and "
+              "cutoff_and_override_reach_the_crawler for the configuration step; histogram_survives_state_file for the expirer's "
+              "state in the crawler state file; lease_duration_is_31_days pins the extracted constants. What the code does outside "
+              "WellFormedLeases is pinned by three proved counterexamples (the three open known findings).")
+LEVEL_NOTE = ("No _partial theorem is left. Hypothesis WellFormedLeases excludes exactly the three open findings (shared cancel "
+              "secret deletes a valid lease / makes the expirer raise; lease-less share counted but kept). Two defects found by this "
+              "check are repaired in /repo (age mode without override never expired: e9c8d12; lease crawler dead after a restart "
+              "inside a cycle: e6c3ed8) and the model describes the repaired behaviour; reverting either is caught. "
+              "Correspondence / monitor only: time zones of the cutoff date (value parsers are C48), space-recovered counts (counts "
+              "compared, bytes not), the abort of a slice by a raising share (needs a shared cancel secret). Not covered: byte "
+              "counters of the status page, on-disk rewriting of lease records by cancel_lease (layout: C29; cancel_lease is "
+              "modelled as 'remove every lease with that secret' and tied by the leases read back from disk).")
+RULE = ("a case is one share file (type, 0..6 leases with renewal times placed at/around the configured threshold) processed by the "
+        "real LeaseCheckingCrawler under one policy configuration and a patched clock (directly, in a whole cycle, or in a "
+        "multi-slice schedule), one settings combination built through the production path, one event of a crawler schedule, or "
+        "one histogram round trip; distinct = distinct (config, now - renewal offsets, cancel-secret pattern, share type) resp. "
+        "(settings) / (state file, oracle, kill point) / (ages); non-trivial = the share has at least one lease resp. the event made "
+        "a process_bucket call or was a kill/restart")
+TRUSTED = ["lean/Tahoe/Storage/Expire.lean and GcCycle.lean are hand transcriptions of process_share / process_bucket / cancel_lease / "
+           "get_anonymous_storage_server + LeaseCheckingCrawler.__init__ / the histogram conversions, and of the crawler calling "
+           "process_bucket (behaviour as of /repo with e9c8d12 and e6c3ed8); os.stat-based byte counters are not modelled",
+           "the harness patches the module attributes `time` of expirer/lease/crawler (integral fake clock; the C27 scripted clock for "
+           "multi-slice schedules) and `os` of crawler (listdir / scandir in native, descending or seeded order)",
            "production path: _Client.get_anonymous_storage_server is run unmodified on a minimal MultiService shell carrying "
            "the real read_config() result, nodeid and stats_provider=None (the rest of node start-up is not needed by it); "
-           "the server's reactor clock is replaced by a twisted Clock for leases granted through the API"]
+           "the server's reactor clock is replaced by a twisted Clock for leases granted through the API; the process time zone "
+           "is set through TZ + time.tzset() around construction and crawl",
+           "multi-slice schedules: a LeaseCheckingCrawler subclass with the C27 hooks (time checks after process_bucket / "
+           "finished_prefix, a kill = exception before save_state, then a new crawler from the state file)"]
 ASSUMPTIONS = ["lease expiry = renewal time + 31 days (DEFAULT_RENEWAL_TIME; checked on leases granted through the real StorageServer API)",
-               "clock values are integral seconds",
-               "share files are well-formed v1/v2 containers (corrupt shares are outside this property)"]
+               "clock values are integral seconds, one value per slice",
+               "share files are well-formed v1/v2 containers (corrupt shares are outside this property)",
+               "leases are not renewed concurrently with the crawl (the world changes only through the crawler during a schedule)",
+               "in the schedule-level theorems every share has >= 1 lease and pairwise distinct cancel secrets (WellFormedLeases)"]
 
 DAY = 86400
 T0 = 1_700_000_000
